@@ -1785,6 +1785,9 @@ func buildCache(typ reflect.Type, cache map[string][]int, parent []int) {
 				buildCache(typ, cache, index)
 			}
 		}
-		cache[field.Name] = index
+		// a field hides the fields of the same name that are promoted from deeper levels (Go's rule)
+		if old, ok := cache[field.Name]; !ok || len(index) <= len(old) {
+			cache[field.Name] = index
+		}
 	}
 }
